@@ -28,7 +28,8 @@ SPEC = {
     "level_note": "Trusted: as C09.  The HTTP/1 and WebSocket transport-level clause (send_lock held across write + drain: at most one write outstanding per connection) is NOT modelled in Lean; it is checked by the end-to-end monitors on both workers only (partial).  'Promptly' is 'within the same quiescence' (virtual time), not wall-clock latency.  A client half-close while the TRANSPORT is paused does not release a sender blocked in drain() (the transport, not hypercorn, owns that wait); the EOF release is checked under window pressure.",
     "rule": "grid cell (window, release event, wait position) + distinct generated (profile, window, streams, app kinds, client actions, terminal event); non-trivial = some send() actually waited",
     "trusted": ["h2 4.4.1, priority 2.0.0, wsproto, h11 as libraries", "in-memory transports' pause/fail semantics (harness/core/runner.py)"],
-    "partial": ["h1_held_bounded (HTTP/1 / WebSocket transport-level backpressure): monitored end-to-end on both workers, not proved in Lean"],
+    "partial": ["F73 (known): WebSocket-over-HTTP/2 control-frame replies pushed by the reader task can park the reader at the high-water mark",
+                "h1_held_bounded (HTTP/1 / WebSocket transport-level backpressure): monitored end-to-end on both workers, not proved in Lean"],
     "assumptions": ["one pending send per stream (sequential ASGI application)"],
 }
 
@@ -308,6 +309,42 @@ def check_e2e(ctx: Ctx, cases: List[dict]) -> None:
                 ctx.violation("send_task_died", cc, {"error": res["error"], "loop": res["loop_errors"]}, {**sig, "error": str(res["error"])})
 
 
+def check_ws_control_replies(ctx: Ctx) -> None:
+    """WebSocket over HTTP/2: replies to control frames (pong, close) are pushed into the stream buffer by the READER task.
+    With the stream window closed and the buffer at the high-water mark that push parks the reader itself: no WINDOW_UPDATE,
+    no other stream's frames are read any more - a waiting send blocking every other stream (finding F73)."""
+    app = [["recv"], ["send", {"type": "websocket.accept"}], ["recv_until_disconnect"]]
+    for worker in ("asyncio", "trio"):
+        async def client(io):
+            h2c = C.H2Client(initial_window=0, auto_window=False)
+            ws = C.WsClient(random.Random(1))
+            sid = h2c.request(ws.h2_request_headers(), end=False)
+            await h2c.pump(io)
+            await io.sleep(0.2)
+            await h2c.pump(io)
+            for _ in range(400):                       # 400 pongs of 127 bytes > BUFFER_HIGH_WATER
+                h2c.conn.send_data(sid, ws.ping(b"p" * 125))
+                await io.send(h2c.out())
+            await io.sleep(0.5)
+            sib = h2c.request(C.h2_headers("GET", "/sib"))
+            h2c.conn.increment_flow_control_window(1000, stream_id=sib)
+            await io.send(h2c.out())
+            await io.sleep(1.0)
+            h2c.receive(io.take())
+            return {"sib": h2c.summary()["streams"].get(str(sib))}
+        res = G9._runner(worker)({"keep_alive_timeout": 30, "websocket_ping_interval": None}, "h2", client, [app, SIB], tail=3)
+        ctx.evaluations += 1
+        ctx.count("e2e.proto", "wsh2-control-replies")
+        case = {"layer": "ws_control", "worker": worker}
+        cr = res.get("client_result") or {}
+        sib = cr.get("sib") or {}
+        if res.get("stuck_session") or not (sib.get("ended") and sib.get("data") == "sibling"):
+            ctx.violation("reader_parked_by_control_frame_reply", case,
+                          {"sibling": {"ended": sib.get("ended"), "data": sib.get("data")}, "reads": sum(1 for l in res["labels"] if l[1] == "srvRead"),
+                           "applications_started": len(res["apps"])},
+                          {"layer": "e2e", "proto": "wsh2", "trigger": "ping_flood_closed_window"})
+
+
 def run(ctx: Ctx) -> None:
     H.limit_memory()
     cells = grid()
@@ -322,6 +359,7 @@ def run(ctx: Ctx) -> None:
         G9.check_direct(ctx, scenarios[lo: lo + 250], "C08")
     check_pairs(ctx)
     check_e2e(ctx, e2e_grid())
+    check_ws_control_replies(ctx)
 
 
 def replay(ctx: Ctx, case: dict) -> None:
@@ -332,5 +370,7 @@ def replay(ctx: Ctx, case: dict) -> None:
             grid_monitor(ctx, sc, H.run_scenario(sc))
     elif case.get("layer") == "pair":
         check_pairs(ctx)
+    elif case.get("layer") == "ws_control":
+        check_ws_control_replies(ctx)
     else:
         check_e2e(ctx, [{k: v for k, v in case.items() if k != "worker"}])
